@@ -163,6 +163,27 @@ def focused(tier):
        {"Z": klass([{"values": [0.0, 0.5], "budget": 1}, None], [[0.0, 1.0], [1.0]], route=matrix([[1.0, 0.0], [0.0, 0.0]])),
         "Y": klass([None, {"values": [1.0, 0.0], "budget": 2}], [[1.0], [1.0, 0.0]], route=matrix([[0.0, 0.0], [1.0, 0.0]]))})
     out[-1]["D"] = INF
+    # several customers of one multi-server node blocked towards the same destination while it starts a new service
+    for p2 in (1.0, 0.5):
+        mk("cycle2 c=(3,1) caps=(0,1) p=%s" % p2, [node(c=3, cap=0), node(c=1, cap=1)],
+           {"A": klass([[0.25, 0.5], None], [[1.0, 2.0], [2.0, 1.0]], route=matrix([[0.0, 1.0], [p2, 0.0]]))})
+        out[-1]["max_events"] = E + 8
+    # (beyond the statement's 'finite integer servers': a non-pre-emptive schedule with an overtime server in the cycle)
+    mk("cycle2 with schedule [1,1] at node 1", [node(c={"sched": {"numbers": [1, 1], "ends": [2.0, 4.0], "preempt": False}}, cap=0), node(c=1, cap=0)],
+       {"A": klass([ARR, None], [[3.0, 1.0], [1.0, 2.0]], route=matrix([[0.0, 1.0], [1.0, 0.0]]))})
+    out[-1]["max_events"] = E + 8
+    # scenario families: scripted arrival instants (no choice), service menus around a known critical timing
+    BIGT = 1.0e9
+    mk("scenario: three blocked towards one destination, destination starts a new service", [node(c=3, cap=0), node(c=1, cap=1)],
+       {"Out": klass([None, {"script": [0.5, BIGT]}], [[1.0], [10.0, 8.0]], route=matrix([[0.0, 0.0], [0.0, 0.0]])),
+        "Loop": klass([{"script": [2.0, 1.5, 1.5, 6.0, BIGT]}, {"script": [1.0, BIGT]}], [[1.0, 0.5], [6.0, 4.0]], route=matrix([[0.0, 1.0], [1.0, 0.0]]))})
+    out[-1]["max_events"] = 40
+    out[-1]["D"] = 3
+    mk("scenario: overtime server in the cycle (schedule [1,1])", [node(c={"sched": {"numbers": [1, 1], "ends": [5.0, 1000.0], "preempt": False}}, cap=2), node(c=1, cap=0)],
+       {"Out": klass([{"script": [1.0, BIGT]}, None], [[9.0, 7.0], [1.0]], route=matrix([[0.0, 0.0], [0.0, 0.0]])),
+        "Loop": klass([{"script": [3.0, 7.5, BIGT]}, {"script": [2.0, BIGT]}], [[1.0, 0.5], [5.0, 4.0]], route=matrix([[0.0, 1.0], [1.0, 0.0]]))})
+    out[-1]["max_events"] = 40
+    out[-1]["D"] = 3
     mk("multi-server partial blockage", [node(c=2, cap=0), node(c=1, cap=0), node(c=1)],
        {"A": klass([[0.5, 0.25], None, None], [[1.0, 2.0], [2.0, 1.0], [1.0]], route=matrix([[0.0, 0.5, 0.5], [1.0, 0.0, 0.0], [0.0, 0.0, 0.0]]))})
     return out
